@@ -8,6 +8,7 @@ WRAP = ["-Wl,--wrap=malloc,--wrap=calloc,--wrap=realloc,--wrap=free,--wrap=atexi
 NOBUILTIN = ["-fno-builtin-malloc", "-fno-builtin-calloc", "-fno-builtin-realloc", "-fno-builtin-free"]
 M64 = (1 << 64) - 1
 RECLENS = [1, 1, 2, 3, 4, 7, 8, 8, 16, 24, 100]
+BB_SRCS = ["datastruct/elasticarray.c", "datastruct/elasticqueue.c", "datastruct/seqptrmap.c"]
 
 
 def sched_op(r):
@@ -361,7 +362,9 @@ def mutating(prefixes, k):
 
 
 def components(ctx):
-    common = dict(monitor_args=["dsmon"], extra=NOBUILTIN, ldflags=WRAP, classify=classify)
+    # black-box fallback (harness/h_ds.c -DHC_BLACKBOX): the .c files h_ds.c #includes are compiled separately; the pool's
+    # static record cannot be re-created through mpool.h's interface, so pool cases get one process each
+    common = dict(monitor_args=["dsmon"], extra=NOBUILTIN, ldflags=WRAP, classify=classify, bb_ok=True, bb_srcs=BB_SRCS)
     return [
         vlib.Component("ea", "h_ds.c", [], ["ds"], gen_ea,
                        nontrivial=mutating(("ea_append", "ea_resize", "ea_shrink", "ea_trunc"), 3),
@@ -382,7 +385,7 @@ def components(ctx):
                        nontrivial=mutating(("mp_malloc", "mp_free"), 5),
                        rule="mp: pool of cache size 4; bursts past the cache size followed by frees (stack doubling 4->8->16->32->64), "
                             "cache-served churn, random mixes, failure schedules incl. refuse-everything before the final frees and exit; "
-                            "non-trivial = >= 5 malloc/free", **common),
+                            "non-trivial = >= 5 malloc/free", bb_fresh=True, **common),
     ]
 
 
